@@ -3,7 +3,7 @@
    The deflate encoder is a parameter: `deflate_raw dict payload` is whatever flate.Writer emits after
    ResetDict/Write/Flush; the only facts assumed about it are that it returns bytes and fewer than 2^63 of them. *)
 From Gws Require Import Lib.Base Spec.MaskSpec Spec.Rfc6455 Model.Mask Model.Header Model.Writer Model.CloseCode
-  Proofs.FrameProofs Proofs.WriterProofs Proofs.CloseFrameProofs Gen.Funcs Proofs.GenFuncsProofs.
+  Proofs.FrameProofs Proofs.WriterProofs Proofs.CloseFrameProofs Gen.Funcs Proofs.GenHeaderProofs Proofs.GenWriterProofs.
 Local Open Scope N_scope.
 
 Section C05.
